@@ -1,8 +1,28 @@
 """Which bundles (domain + contracts) decide which property, plus the per-property notes that go into MANIFEST / evidence."""
 
-SETUP_CMD = "mkdir -p evidence replays && python3-vt -c 'import z3; print(z3.get_version_string())' && /usr/bin/cvc5 --version | head -1"
+SETUP_CMD = "mkdir -p evidence replays && python3-vt -c 'import z3; print(z3.get_version_string())' && /usr/bin/cvc5 --version | head -1 && ./tools/lean_check.sh"
 NOTES = ("Contract-based deductive verification with an own VC generator (pyvc); see DESIGN.md. Exit codes of ./check: 0 held, "
          "1 violation (VIOLATION line), 2 undecided, 3 checker error / soundness guard.")
+
+def lean_step(repo, tier, root):
+    """lemma L1 (pure mathematics, independent of /repo): accepted by Lean 4 + Mathlib.  setup_cmd compiles it and records the hash of the accepted source;
+    the quick tier checks that hash (and compiles if the record is missing), the thorough tier compiles again."""
+    import os, subprocess, hashlib, z3
+    from pyvc.core import Ob
+    here = os.path.dirname(os.path.dirname(os.path.abspath(__file__)))
+    src = os.path.join(here, 'lemmas', 'L1.lean')
+    okf = os.path.join(here, 'lemmas', '.L1.ok')
+    h = hashlib.sha256(open(src, 'rb').read()).hexdigest()
+    recorded = open(okf).read().strip() if os.path.exists(okf) else None
+    how = 'hash of the source equals the one accepted at set-up'
+    if tier == 'thorough' or recorded != h:
+        p = subprocess.run([os.path.join(here, 'tools', 'lean_check.sh')], capture_output=True, text=True)
+        recorded = open(okf).read().strip() if os.path.exists(okf) else None
+        how = 'compiled in this run: ' + p.stdout.strip().split('\n')[-1][:200]
+    ob = Ob('lemmas/L1.lean/lean[dykstra_stop_rule, dykstra_stop_rule\' accepted by Lean 4.33 + Mathlib; axioms: propext, Classical.choice, Quot.sound]', 'lean', 'L1',
+            ['C15', 'C09'], [], z3.BoolVal(recorded == h), 0, 'unsat', {'syntactic': True, 'why': how})
+    return [ob]
+
 
 NOT_APPLICABLE = {
     'C05': 'convergence of an iterative floating-point algorithm to 1e-6 of the optimum over its whole history: not a postcondition of any '
@@ -37,12 +57,30 @@ PROPS = {
                           'argument and soln.x lie inside the caller\'s bounds; with projections the bound box is the last projector (closure applied symbolically).',
             'level_note': BOX_NOTE,
             'not_decided': ['NaN/inf steps (A-nan precondition on the argument of as_absolute_coordinates; numerics of the step solvers)']},
-    'C09': {'bundles': ['box'], 'level': 'proof',
+    'C13': {'bundles': ['vecs'], 'level': 'proof',
+            'level_text': 'Partial claim: in ctrsbox_pgd / ctrsbox_sfista / ctrsbox_linear the trust-region ball is appended LAST to the projection list (closure recognised and tied to '
+                          'util.pball\'s verified contract), Dykstra\'s result is an output of the last projector whenever a sweep ran, so every returned step has ||d|| <= Delta in real '
+                          'arithmetic (loop invariant on the real loops); ctrsbox_geometry returns one of two such steps; in Controller.trust_region_step the regularised step handed back has '
+                          'h(x) - m(d) >= 0 because the zero step is substituted otherwise and m(0) == h(x) (contract of model_value).',
+            'level_note': 'Domain V: reals, opaque vectors with vector-space / norm axioms, exact projector contract for caller-supplied projections (A-callback). NOT decided: box/ball feasibility to 1e-12 '
+                          'and GLOBAL OPTIMALITY to 1e-6 of trsbox_geometry / trsbox_linear (active-set loop, nonlinear invariants over symbolic dimension) and the (1+1e-8) rounding slack. '
+                          'A-params sub-range: func_tol.max_iters >= 1 (0 is accepted by the parameter check and leaves a local unbound in ctrsbox_sfista).',
+            'not_decided': ['trsbox_geometry: box/ball feasibility to 1e-12 and global optimality to 1e-6', 'floating-point slack (1+1e-8)']},
+    'C15': {'bundles': ['vecs', 'box'], 'steps': [lean_step], 'level': 'proof',
+            'level_text': 'dykstra is verified on its real body in two domains. Real vectors: sweeps <= max_iter; the stop quantity equals the sum of squared moves of the sweep (ghost sequence), '
+                          'every sub-iterate lies in its set, hence "stopped by the rule" gives exactly the hypothesis of lemma L1, whose conclusion ||x_p - x_i|| <= sqrt(p*tol) is proved in Lean 4 '
+                          '+ Mathlib; a point inside all sets is returned unchanged; the result is an output of the last projector. Binary64: with the box last, the result lies in the box exactly.',
+            'level_note': 'Domain V (reals, opaque vectors, exact-projector contract) + domain B (binary64) + Lean lemma L1 (axioms propext, Classical.choice, Quot.sound). Trusted: L0 (the ghost sum reads '
+                          'xs[0..k] only; elementary induction) and the 10-line correspondence between the SMT postcondition and the hypothesis of L1 (by inspection). NOT decided: "within 1e-3 of the '
+                          'true projection" — a rate statement that the stop rule does not imply. "Unchanged" is exact in real arithmetic; pball rounds c + 1.0*(x - c) in floating point.',
+            'not_decided': ['within 1e-3 of the true projection onto the intersection']},
+    'C09': {'bundles': ['box', 'vecs'], 'steps': [lean_step], 'level': 'proof',
             'level_text': 'Partial claim: with projections every evaluated point is (a ghost-tagged) output of util.dykstra; solve appends the bound box last, so that '
                           'output lies in the box exactly whenever at least one sweep ran (dykstra.max_iters >= 1 from the parameter table); x0 is replaced by its '
                           'projection before the first evaluation.',
-            'level_note': BOX_NOTE + ' The clause "within sqrt(p*tol) of every set when the stop rule fired" is decided under C15 (real-vector contract of dykstra + Lean lemma L1).',
-            'not_decided': ['distance sqrt(p*tol) to the user sets: see C15']},
+            'level_note': BOX_NOTE + ' The clause "within sqrt(p*tol) of every set when the stop rule fired" is the real-vector contract of dykstra (bundle vecs: stopped by the rule => '
+                          'hypothesis of L1) plus Lean lemma L1; the correspondence between the two is by inspection.',
+            'not_decided': []},
     'C02': {'bundles': ['ledger'], 'level': 'proof',
             'level_text': 'Every objfun call goes through one contract-verified choke point; a ghost ledger (calls, points, budget) is proved '
                           'equal to nf/nx and bounded by maxfun at every loop head, call site and return of evaluate_objective, eight Controller '
